@@ -264,11 +264,14 @@ static std::string show(const Op& op)
 
 static long g_steps = 0;
 static bool g_ub = false;
+static bool g_trace = false; // trace mode: print the real library's results, ignore the model
+static int  g_only_history = -1;
 
 template<typename MakeReal, typename MakeModel, typename Step>
 static bool run_histories(const char* cname, uint64_t seed, int histories, int len, const std::vector<std::string>& names, MakeReal mkreal, MakeModel mkmodel, Step step)
 {
     for (int h = 0; h < histories; h++) {
+        if (g_only_history >= 0 && h != g_only_history) continue;
         Gen g(seed * 1000003 + h);
         size_t cap = 1 + g.u(MAXCAP);
         int64_t ttl = (int64_t)g.u(4) * 10;
@@ -286,6 +289,13 @@ static bool run_histories(const char* cname, uint64_t seed, int histories, int l
             log.push_back(show(op));
             if (!step(*real, *model, op, r, m)) { fprintf(stderr, "cosim: unknown op %s for %s\n", op.name.c_str(), cname); return false; }
             g_steps++;
+            if (g_trace) {
+                // universal oracles that need no reference model: a hit returns the value last written under that key
+                printf("H%d S%d cap=%zu ttl=%ld %s ->", h, i, cap, (long)ttl, log.back().c_str());
+                for (auto x : r) printf(" %ld", (long)x);
+                printf("\n");
+                continue;
+            }
             if (!g_fail.empty()) {
                 // the history drives the library into undefined behaviour (a std:: precondition is violated in
                 // the extracted code, which mirrors the real code): not an extraction defect; stop this container
@@ -349,6 +359,13 @@ int main(int argc, char** argv)
 {
     if (argc >= 5 && !strcmp(argv[1], "cosim"))
         return cosim(strtoull(argv[2], 0, 10), atoi(argv[3]), atoi(argv[4]), argc > 5 ? argv[5] : nullptr);
+    if (argc >= 6 && !strcmp(argv[1], "trace")) {
+        // driver trace <container> <seed> <histories> <len> [history]: results of the real library only
+        g_trace = true;
+        if (argc > 6) g_only_history = atoi(argv[6]);
+        cosim(strtoull(argv[3], 0, 10), atoi(argv[4]), atoi(argv[5]), argv[2]);
+        return 0;
+    }
     if (argc >= 3 && !strcmp(argv[1], "replay"))
         return replay_main(argc, argv);
     fprintf(stderr, "usage: driver cosim <seed> <histories> <len> [container] | driver replay <script>\n");
